@@ -445,6 +445,34 @@ def signV (v : V3) : List Int :=
 def Dirs.all (d : Dirs) : List (String × V3) :=
   [("front", d.o), ("back", -d.o), ("top", d.t), ("bottom", -d.t), ("left", d.l), ("right", -d.l)]
 
+/-! ## validator for the hull oracle -/
+
+/-- What is assumed of `scipy.spatial.ConvexHull(points).simplices` for a convex block, checked on the answer the
+    implementation received: 12 triangles over the eight points, every point used, every edge shared by exactly two
+    triangles (a closed surface), no degenerate triangle, and all points on one side of every triangle's plane up to
+    the relative tolerance `eps` (distance ≤ eps · diameter; squares compared, no square roots). -/
+def hullProblems (pts : List V3) (sim : List (Nat × Nat × Nat)) (eps : Rat) : List String :=
+  let n := pts.length
+  let g (i : Nat) := pts.getD i V3.zero
+  let diam2 : Rat := pts.foldl (fun m p => pts.foldl (fun m q => max m (dist2 p q)) m) 0
+  let edges := sim.flatMap (fun s => [(min s.1 s.2.1, max s.1 s.2.1), (min s.2.1 s.2.2, max s.2.1 s.2.2),
+    (min s.1 s.2.2, max s.1 s.2.2)])
+  let oneSided (s : Nat × Nat × Nat) : Bool :=
+    let t := triOf pts s
+    let nrm := t.normalRaw
+    let small (d : Rat) : Bool := decide (d * d ≤ eps * eps * V3.norm2 nrm * diam2)
+    let ds := pts.map (fun p => V3.dot nrm (p - t.p0))
+    ds.all (fun d => decide (d ≤ 0) || small d) || ds.all (fun d => decide (0 ≤ d) || small d)
+  (if sim.length = 12 then [] else ["count"]) ++
+  (if sim.all (fun s => decide (s.1 < n ∧ s.2.1 < n ∧ s.2.2 < n ∧ s.1 ≠ s.2.1 ∧ s.2.1 ≠ s.2.2 ∧ s.1 ≠ s.2.2)) then []
+    else ["index"]) ++
+  (if (List.range n).all (fun i => sim.any (fun s => s.1 == i || s.2.1 == i || s.2.2 == i)) then [] else ["point-unused"]) ++
+  (if edges.all (fun e => edges.count e == 2) then [] else ["not-closed"]) ++
+  (if sim.all (fun s => decide (0 < V3.norm2 (triOf pts s).normalRaw)) then [] else ["degenerate-triangle"]) ++
+  (if sim.all oneSided then [] else ["not-convex"]) ++
+  (if (List.range n).all (fun i => (List.range n).all (fun j => i == j || !(decide (near (g i) (g j))))) then []
+    else ["coincident-points"])
+
 /-! ## line protocol -/
 
 def parsePts? (s : String) : Option (List V3) :=
@@ -491,6 +519,12 @@ def handle (op : String) (args : List String) : Option String :=
       else match reorient pts tris obs ceil with
         | .ok out => some ("ok " ++ showNatList (indicesIn pts out))
         | .error e => some ("err " ++ e.toStr)
+  | "c18.hull", [eps, pts, tris] => do
+      let eps ← parseRat? eps
+      let pts ← parsePts? pts
+      let tris ← parseTris? tris
+      let bad := hullProblems pts tris eps
+      some (if bad.isEmpty then "ok" else "fail " ++ ",".intercalate bad)
   | "c18.canon", [obs, ceil, pts] => do
       let obs ← parseV3? obs
       let ceil ← parseV3? ceil
